@@ -768,7 +768,9 @@ func runC11(rc *RunCtx) {
 // ---------------------------------------------------------------- C12 matrix
 
 var c12Flows = []string{"send", "send-with-caller", "deposit", "deposit-with-caller", "replace", "replace-deposit", "receive-other", "receive-mint", "receive-other-long", "send-long", "receive-near-module", "send-to-messenger", "send-with-caller-to-messenger", "replace-to-messenger",
-	"replace-deposit-same-recipient", "replace-deposit-unchanged", "replace-unchanged"}
+	"replace-deposit-same-recipient", "replace-deposit-unchanged", "replace-unchanged",
+	"receive-other-by-pauser-as-caller", "receive-mint-by-pauser-as-caller", "send-by-pauser", "receive-other-by-owner-as-caller", "receive-mint-by-owner-as-caller", "send-by-owner",
+	"receive-other-by-am-as-caller", "receive-mint-by-am-as-caller", "send-by-am", "receive-other-by-tc-as-caller", "receive-mint-by-tc-as-caller", "send-by-tc"}
 
 func runC12(rc *RunCtx) {
 	defer ProbeHistory(rc, rc.Pick(200, 800), false)
@@ -908,6 +910,31 @@ func runC12(rc *RunCtx) {
 				nonce++
 				raw := StdInbound(nonce, 1, big.NewInt(7)).Bytes()
 				m = &ct.MsgReceiveMessage{From: Acct(UserIx), Message: raw, Attestation: e.Attest(raw, 1)}
+			default:
+				// the same flows submitted by a role holder, relaying a message that names that holder as its destination caller
+				for role, holder := range map[string]string{"pauser": e.M.Pauser, "owner": e.M.Owner, "am": e.M.AM, "tc": e.M.TC} {
+					if !strings.Contains(name, "-by-"+role) {
+						continue
+					}
+					if !validAddr(holder) || len(addrBytes(holder)) > 32 {
+						return
+					}
+					switch {
+					case strings.HasPrefix(name, "send-by-"):
+						m = &ct.MsgSendMessage{From: holder, DestinationDomain: 1, Recipient: Structured32(8), MessageBody: []byte("from a role holder")}
+					case strings.HasPrefix(name, "receive-other-by-"):
+						nonce++
+						in := &InMsg{Version: 0, Src: 1, Dst: 4, Nonce: nonce, Sender: Structured32(1), Recipient: Structured32(2), Caller: ref.Pad32(addrBytes(holder)), Body: []byte("for you only")}
+						raw := in.Bytes()
+						m = &ct.MsgReceiveMessage{From: holder, Message: raw, Attestation: e.Attest(raw, 0)}
+					default:
+						nonce++
+						in := StdInbound(nonce, 1, big.NewInt(7))
+						in.Caller = ref.Pad32(addrBytes(holder))
+						raw := in.Bytes()
+						m = &ct.MsgReceiveMessage{From: holder, Message: raw, Attestation: e.Attest(raw, 1)}
+					}
+				}
 			}
 			if m == nil {
 				rc.Cov.Inconclusive("c12: no original for " + name)
@@ -915,7 +942,7 @@ func runC12(rc *RunCtx) {
 			}
 			sr, bm := e.M.PausedSR, e.M.PausedBM
 			r := e.Exec(Tx{Msgs: msgs1(m), Note: "C12 " + name + " " + phase})
-			blocked := sr || (bm && (strings.HasPrefix(name, "deposit") || strings.HasPrefix(name, "replace-deposit") || name == "receive-mint"))
+			blocked := sr || (bm && (strings.HasPrefix(name, "deposit") || strings.HasPrefix(name, "replace-deposit") || strings.HasPrefix(name, "receive-mint")))
 			rc.Cov.Assert("C12.pause-matrix")
 			rc.Cov.Cell("C12_matrix", fmt.Sprintf("sr=%v,bm=%v/%s/%s/%v", sr, bm, name, phase, map[bool]string{true: "ok", false: "fail"}[r.OK]))
 			rc.Cov.Distinct(fmt.Sprintf("c12|%v|%v|%s|%s|%v", sr, bm, name, phase, r.OK))
